@@ -211,6 +211,11 @@ package mq
 //@ func (*Connect).SetWill
 //@   inline
 //@   requires will != nil
+//@   ensures (p.flags & 4) != 0                                                        #C12
+//@   ensures will.QoS() <= 2 ==> ((p.flags >> 3) & 3) == will.QoS()                    #C12
+//@   ensures ((p.flags & 32) != 0) == will.Retain()                                    #C12
+//@   ensures (p.flags & 195) == (old(p.flags) & 195)                                   #C12
+//@   ensures p.will == will                                                            #C12
 
 //@ func (*Connect).dump
 //@   requires w != nil
@@ -654,3 +659,88 @@ package mq
 //@ func (*Publish).Retain
 //@   pure
 //@   ensures result == ((p.fixed & 1) != 0)
+
+// ---------------------------------------------------------------- setters: derived flags and adders (C12)
+// The SetX/X pairs themselves are generated from the method names by the C12 check.
+
+//@ func (*Connect).SetUsername
+//@   inline
+//@   ensures ((p.flags & 128) != 0) == (len(v) > 0)                                    #C12
+//@   ensures (p.flags & 127) == (old(p.flags) & 127)                                   #C12
+
+//@ func (*Connect).SetPassword
+//@   inline
+//@   ensures ((p.flags & 64) != 0) == (len(v) > 0)                                     #C12
+//@   ensures (p.flags & 191) == (old(p.flags) & 191)                                   #C12
+
+//@ func (*Connect).SetCleanStart
+//@   inline
+//@   ensures ((p.flags & 2) != 0) == v                                                 #C12
+//@   ensures (p.flags & 253) == (old(p.flags) & 253)                                   #C12
+
+//@ func (*ConnAck).SetSessionPresent
+//@   inline
+//@   ensures ((p.flags & 1) != 0) == v                                                 #C12
+//@   ensures (p.flags & 254) == (old(p.flags) & 254)                                   #C12
+
+//@ func (*Publish).SetQoS
+//@   inline
+//@   requires v <= 3                                                                   #C12
+//@   ensures (p.fixed & 249) == (old(p.fixed) & 249)                                   #C12
+
+//@ func (*Publish).SetDuplicate
+//@   inline
+//@   ensures ((p.fixed & 8) != 0) == v                                                 #C12
+//@   ensures (p.fixed & 247) == (old(p.fixed) & 247)                                   #C12
+
+//@ func (*Publish).SetRetain
+//@   inline
+//@   ensures ((p.fixed & 1) != 0) == v                                                 #C12
+//@   ensures (p.fixed & 254) == (old(p.fixed) & 254)                                   #C12
+
+//@ func (*Subscribe).SetSubscriptionID
+//@   inline
+//@   requires 1 <= v && v <= 268435455                                                 #C12
+
+//@ func (*Publish).AddSubscriptionID
+//@   inline
+//@   ensures len(p.subscriptionIDs) == old(len(p.subscriptionIDs)) + 1                                        #C12
+//@   ensures p.subscriptionIDs[old(len(p.subscriptionIDs))] == v                                               #C12
+//@   ensures forall k in 0..old(len(p.subscriptionIDs)): p.subscriptionIDs[k] == old(p.subscriptionIDs[k])    #C12
+
+//@ func (*SubAck).AddReasonCode
+//@   inline
+//@   ensures len(p.reasonCodes) == old(len(p.reasonCodes)) + 1                                                 #C12
+//@   ensures p.reasonCodes[old(len(p.reasonCodes))] == uint8(v)                                                #C12
+//@   ensures forall k in 0..old(len(p.reasonCodes)): p.reasonCodes[k] == old(p.reasonCodes[k])                 #C12
+
+//@ func (*UnsubAck).AddReasonCode
+//@   inline
+//@   ensures len(p.reasonCodes) == old(len(p.reasonCodes)) + 1                                                 #C12
+//@   ensures p.reasonCodes[old(len(p.reasonCodes))] == uint8(v)                                                #C12
+//@   ensures forall k in 0..old(len(p.reasonCodes)): p.reasonCodes[k] == old(p.reasonCodes[k])                 #C12
+
+//@ func (*Unsubscribe).AddFilter
+//@   inline
+//@   ensures len(p.filters) == old(len(p.filters)) + 1                                                         #C12
+//@   ensures eqv(p.filters[old(len(p.filters))], filter)                                                       #C12
+//@   ensures forall k in 0..old(len(p.filters)): p.filters[k] == old(p.filters[k])                             #C12
+
+//@ func (*Subscribe).AddFilters
+//@   inline
+//@   ensures len(p.filters) == old(len(p.filters)) + len(v)                                                    #C12
+//@   ensures forall k in 0..len(v): p.filters[old(len(p.filters)) + k] == v[k]                                 #C12
+//@   ensures forall k in 0..old(len(p.filters)): p.filters[k] == old(p.filters[k])                             #C12
+
+//@ func (*UserProperties).AddUserProp
+//@   inline
+//@   requires len(kvPair) % 2 == 0
+//@   ensures len(*p) == old(len(*p)) + len(kvPair) / 2                                                          #C12
+//@   ensures forall k in 0..len(kvPair)/2: (*p)[old(len(*p)) + k][0] == kvPair[2*k] && (*p)[old(len(*p)) + k][1] == kvPair[2*k+1]   #C12
+//@   ensures forall k in 0..old(len(*p)): (*p)[k] == old((*p)[k])                                               #C12
+//@   loop 0:
+//@     invariant 0 <= i && i <= len(kvPair) && i % 2 == 0
+//@     invariant len(*p) == old(len(*p)) + i / 2                                                               #C12
+//@     invariant forall k in 0..i/2: (*p)[old(len(*p)) + k][0] == kvPair[2*k] && (*p)[old(len(*p)) + k][1] == kvPair[2*k+1]   #C12
+//@     invariant forall k in 0..old(len(*p)): (*p)[k] == old((*p)[k])                                          #C12
+//@     decreases len(kvPair) - i
